@@ -24,6 +24,16 @@ Theorem C06_spellings_table_upgrade :
 Proof. split; reflexivity. Qed.
 Print Assumptions C06_spellings_table_upgrade.
 
+(* the translator EVALUATES the two isDryRun bodies (any mix of if / switch / early returns /
+   || chains / locals) for DryRun in {true,false} and every option string they mention plus one
+   they do not; it found nothing it could not evaluate (a call such as strings.ToLower, another
+   field, a body that is true for unmentioned strings would be listed here by name).  With that,
+   [*_dry_uses_bool = true] above says: DryRun set => dry for EVERY option string, and the
+   (sorted) spelling lists are the exact sets of option strings that are dry with DryRun clear *)
+Theorem C06_spellings_table_readable : dry_table_problems = [].
+Proof. reflexivity. Qed.
+Print Assumptions C06_spellings_table_readable.
+
 (* rollback.go and uninstall.go read the single boolean, in the functions the model transcribes *)
 Theorem C06_spellings_table_bool_only :
   rollback_dry_readers = ["Run"; "performRollback"] /\ uninstall_dry_readers = ["Run"].
